@@ -424,6 +424,9 @@ class ConfigParser(object):
     except configparser.Error as e:
       # e.g. text before the first section header, a section header that is not closed, a line without ':' or '='
       raise ConfigParserException("Input is not a valid configuration file: {}".format(e.message))
+    except UnicodeDecodeError as e:
+      # e.g. a spreadsheet, or a text file in an encoding other than the one it was opened with
+      raise ConfigParserException("Input is not a valid configuration file, it could not be read as text: {}".format(e))
 
     # Process overrides
     for override in overrides:
